@@ -283,9 +283,10 @@ func getAvailableFieldsForValue(v cue.Value, blockedRootFields []string) (fields
 			continue
 		}
 
-		if checkIfValueInList(fldName, blockedRootFields) {
-			continue
-		}
+		// the selector of an optional or required field ends in ? or !, and that of a quoted field is
+		// quoted: the bare name is what a query addresses and what the blocked list holds
+		fldName = strings.TrimSuffix(fldName, "?")
+		fldName = strings.TrimSuffix(fldName, "!")
 
 		// Strip leading and trailing quotation marks from names:
 		if strings.HasPrefix(fldName, `"`) && strings.HasSuffix(fldName, `"`) {
@@ -293,8 +294,9 @@ func getAvailableFieldsForValue(v cue.Value, blockedRootFields []string) (fields
 			fldName = strings.TrimSuffix(fldName, `"`)
 		}
 
-		fldName = strings.TrimSuffix(fldName, "?")
-		fldName = strings.TrimSuffix(fldName, "!")
+		if checkIfValueInList(fldName, blockedRootFields) {
+			continue
+		}
 
 		fields = append(fields, fldName)
 	}
